@@ -118,7 +118,7 @@ func (c *Ctx) ringSpaceAccounting() {
 	for _, fn := range entries {
 		sp.entry = fn
 		sp.edges = map[*ssa.BasicBlock][]spaceEdge{}
-		sp.seen, sp.reserved = map[string][]bounds.Lin{}, nil
+		sp.seen, sp.reserved, sp.cstored = map[string][]bounds.Lin{}, nil, nil
 		an.Run(fn)
 	}
 	// the reservation on its own, for its postcondition (3)
@@ -175,6 +175,8 @@ func (c *Ctx) ringSpaceAccounting() {
 	}
 	c.R.Count("consumer-cursor stores (space accounting)", cnt["cset"])
 	c.R.Floor("consumer-cursor stores (space accounting)", cnt["cset"], 2)
+	c.R.Count("consumer calls reporting a byte count (advance == count)", cnt["advance"])
+	c.R.Floor("consumer calls reporting a byte count (advance == count)", cnt["advance"], 2)
 	c.R.Count("producer-cursor stores (space accounting)", cnt["pset"])
 	c.R.Floor("producer-cursor stores (space accounting)", cnt["pset"], 1)
 	c.R.Count("successful returns of the space reservation", cnt["post"])
@@ -211,6 +213,7 @@ type spaceRules struct {
 	edges    map[*ssa.BasicBlock][]spaceEdge
 	seen     map[string][]bounds.Lin
 	reserved [][2]bounds.Lin
+	cstored  []bounds.Lin // values stored into the consumer's cursor in this run
 }
 
 // pureRead: v is (a copy of) a value read from the given cursor ("cseq" / "pseq"): the result of sequence.get() on a
@@ -466,6 +469,9 @@ func (sp *spaceRules) probe(p *bounds.Probe) {
 					}
 				}
 			}
+			if okv && av.Kind == bounds.KInt {
+				sp.cstored = append(sp.cstored, av.Int)
+			}
 			key := fmt.Sprintf("%s:store(cseq)#%d", fn.Name(), k)
 			sp.record(key+":never-moves-backwards", "cset", pos, "the stored position is >= a read of the consumer's own cursor", fn.Name()+" can store a consumer position below the cursor's current value: bytes already handed out are delivered again", mono, "in context "+p.Ctx+": no read c of the consumer's cursor with stored >= c is provable")
 			sp.record(key+":never-passes-the-producer", "cset", pos, "the stored position is <= a read of the producer's cursor", fn.Name()+" can store a consumer position beyond what the producer has committed: bytes that were never written are delivered, and the producer's space accounting is corrupted", bound, "in context "+p.Ctx+": no read P of the producer's cursor with stored <= P is provable")
@@ -483,6 +489,39 @@ func (sp *spaceRules) probe(p *bounds.Probe) {
 			sp.record(key, "pset", pos, "the stored position is start + count of a reservation made on this path", fn.Name()+" can store a producer position that is not start + count of a space reservation made on that path: bytes are committed that were not reserved (unread data is overwritten) or written bytes are skipped", okr, "in context "+p.Ctx+": stored value is not provably start + count of a reservation")
 		}
 		return
+	}
+	// (6) a consuming call that reports a byte count advances the cursor by exactly that count
+	if ret, ok := p.Instr.(*ssa.Return); ok && p.Depth() == 0 && sp.consumer(fn) && recvNamed(fn) == "buffer" && len(ret.Results) == 2 {
+		if bt, isB := fn.Signature.Results().At(0).Type().Underlying().(*types.Basic); isB && bt.Kind() == types.Int {
+			eop := ir.ReturnOperand(ret, 1)
+			failed := true
+			if k, isK := eop.(*ssa.Const); isK && k.IsNil() {
+				failed = false
+			} else if ev, okE := p.Val(0, eop); okE && ev.IsNil == 1 {
+				failed = false
+			}
+			rv, okR := p.Val(0, ir.ReturnOperand(ret, 0))
+			if !failed && okR && rv.Kind == bounds.KInt {
+				k := ordinalOf(fn, ret, func(in ssa.Instruction) bool {
+					r2, ok := in.(*ssa.Return)
+					if !ok || len(r2.Results) != 2 {
+						return false
+					}
+					k2, isK := ir.ReturnOperand(r2, 1).(*ssa.Const)
+					return isK && k2.IsNil()
+				})
+				good := p.Proves(bounds.LE(rv.Int, bounds.Const(0))) && p.Proves(bounds.GE(rv.Int, bounds.Const(0))) && len(sp.cstored) == 0
+				for _, v := range sp.cstored {
+					for _, cr := range sp.reads(p, "cseq") {
+						d := v.Sub(cr)
+						if p.Proves(bounds.LE(d, rv.Int)) && p.Proves(bounds.GE(d, rv.Int)) {
+							good = true
+						}
+					}
+				}
+				sp.record(fmt.Sprintf("%s:return#%d:advances-by-the-count-reported", fn.Name(), k), "advance", c.P.InstrPos(ret), "stored consumer position - own cursor == the byte count returned", fn.Name()+" can report another byte count than the one it advances the consumer's cursor by: bytes are skipped without being handed to the caller (lost), or handed out twice", good, "in context "+p.Ctx+": stored - c == returned count is not provable for any store to and read c of the consumer's cursor on this path")
+			}
+		}
 	}
 	// (4) ring memory handed to the consumer's caller
 	if ret, ok := p.Instr.(*ssa.Return); ok && sp.consumer(fn) && recvNamed(fn) == "buffer" && len(ret.Results) >= 1 {
